@@ -43,13 +43,88 @@ let string_of_sub (sb : submission) : string =
     (if metas = [] then "-" else String.concat "," metas)
     (if rd = [] then "-" else String.concat "," rd)
 
+(* ---- "run" cases (case name starts with "run"): the real BlobSubmitter::run was driven; its select
+   loop is replayed here on the model's [step] as an eager scheduler with the loop's (biased)
+   priorities: a finished submission is noticed first, then [Take] is tried if no submission is in
+   flight, then [Recv] of the oldest block still in the channel ([OBusy] leaves it there).
+   Input lines (built by harness/c12.py from the implementation's observations):
+     sizes <i>-<j>=<n>|fit|full|over:<n>,...   compressed size class of the payload of blocks i..j
+     feed <h> ...                               blocks handed to the submitter's channel
+     done                                       the submission in flight was completed
+   Output: one line [sub <h>+<h>..] per submission the model takes, in order. *)
+exception Nosize of string
+
+type rcase = { mutable rst : st; mutable queue : block list; mutable inflight : bool;
+               mutable sizes : (string * string) list; mutable dead : bool }
+
+let max_payload = n_of_string "1000000"
+
+let rcsize (rc : rcase) (blocks : block list) : BinNums.coq_N =
+  match blocks with
+  | [] -> n_of_string "0"
+  | first :: _ ->
+      let last = List.nth blocks (List.length blocks - 1) in
+      let key = string_of_n first.bk_height ^ "-" ^ string_of_n last.bk_height in
+      (match List.assoc_opt key rc.sizes with
+       | Some "fit" -> max_payload
+       | Some "full" -> max_plus_one
+       | Some v when String.length v > 5 && String.sub v 0 5 = "over:" ->
+           n_of_string (String.sub v 5 (String.length v - 5))
+       | Some v when v <> "" && v.[0] >= '0' && v.[0] <= '9' -> n_of_string v
+       | _ -> raise (Nosize key))
+
+let rec settle (rc : rcase) oc =
+  if rc.dead then () else
+  let took =
+    if rc.inflight then false else
+      (match step (rcsize rc) rc.rst Take with
+       | (s', OSub (sb, _)) ->
+           rc.rst <- s'; rc.inflight <- true;
+           Printf.fprintf oc "sub %s\n"
+             (String.concat "+" (List.map (fun b -> string_of_n b.bk_height) sb.sub_input.in_blocks));
+           true
+       | (_, OHalted) -> rc.dead <- true; Printf.fprintf oc "halted\n"; false
+       | _ -> false) in
+  if took then settle rc oc else
+    match rc.queue with
+    | [] -> ()
+    | b :: rest ->
+        (match step (rcsize rc) rc.rst (Recv b) with
+         | (_, OBusy) -> ()
+         | (s', (OAdded | OFull)) -> rc.rst <- s'; rc.queue <- rest; settle rc oc
+         | (s', OOversized) -> rc.rst <- s'; rc.queue <- rest; rc.dead <- true; Printf.fprintf oc "halted\n"
+         | _ -> rc.dead <- true; Printf.fprintf oc "halted\n")
+
+let run_line (rc : rcase) oc (toks : string list) =
+  let guarded f = (try f () with Nosize k -> rc.dead <- true; Printf.fprintf oc "nosize %s\n" k) in
+  match toks with
+  | "sizes" :: l :: _ ->
+      rc.sizes <- (if l = "-" then [] else
+        List.map (fun it -> match String.split_on_char '=' it with
+            | [ k; v ] -> (k, v)
+            | _ -> failwith ("bad sizes item " ^ it)) (String.split_on_char ',' l))
+  | "feed" :: hs ->
+      rc.queue <- rc.queue @ List.map (fun h ->
+          { bk_height = n_of_string h; bk_hash = n_of_string h; bk_rollups = [] }) hs;
+      guarded (fun () -> settle rc oc)
+  | [ "done" ] -> rc.inflight <- false; guarded (fun () -> settle rc oc)
+  | t :: _ -> failwith ("unknown run-case op " ^ t)
+  | [] -> ()
+
 let run ic oc =
   let st = ref (init []) in
+  let rcur : rcase option ref = ref None in
   let cap () = (match !st.pending with None -> true | Some _ -> false) in
   List.iter (fun line ->
     match split_ws line with
     | [] -> ()
+    | "case" :: name :: _ when String.length name >= 3 && String.sub name 0 3 = "run" ->
+        rcur := Some { rst = init []; queue = []; inflight = false; sizes = []; dead = false };
+        Printf.fprintf oc "%s\n" line
+    | toks when (match !rcur, toks with Some _, t :: _ -> t <> "case" | _ -> false) ->
+        (match !rcur with Some rc -> run_line rc oc toks | None -> ())
     | "case" :: rest ->
+        rcur := None;
         let f = (try kv rest "filter" with _ -> "-") in
         let f = if f = "-" then [] else List.map n_of_string (String.split_on_char ',' f) in
         st := init f;
